@@ -4,7 +4,7 @@
 
 use crate::gen::{gen_bytes, Alphabet};
 use crate::model::*;
-use crate::strict::{inflate, P};
+use crate::strict::P;
 use simcore::{Ctx, Stream::W};
 use std::collections::{BTreeMap, BTreeSet};
 
@@ -285,13 +285,9 @@ pub fn leaf_count(doc: &MDoc, node: Id) -> usize {
 
 pub fn stream_plain(o: &MObj) -> Result<Vec<u8>, String> {
     let MObj::Stream(d, body) = o else { return Err("not a stream".into()) };
-    match dict_get(d, b"Filter") {
-        None => Ok(body.clone()),
-        Some(MObj::Name(n)) if n == b"FlateDecode" => inflate(body),
-        Some(MObj::Array(a)) if a.is_empty() => Ok(body.clone()),
-        Some(MObj::Array(a)) if a.len() == 1 && a[0] == MObj::Name(b"FlateDecode".to_vec()) => inflate(body),
-        Some(other) => Err(format!("unsupported filter {}", show(other))),
-    }
+    // the independent decoder of the strict reader: Flate / LZW / ASCII85 chains, PNG predictors,
+    // DecodeParms as a dictionary or as an array
+    crate::strict::decode_structural(d, body)
 }
 
 /// Content-stream ids of a page (ISO 32000-1 7.7.3.3: a stream, or an array of
